@@ -235,7 +235,7 @@ def _dither_point(pt, seed):
     viol = []
     evals = nt = 0
     for N in range(0, 7):
-        for coeff in (0.0, 0.5, 1.0, 3.0, 600.0):
+        for coeff in (0.0, 0.5, 1.0, 3.0, 600.0, 1.0 / 32768, 1e-7, 1e-17):
             for in_place in (False, True):
                 for layout in LAYOUTS:
                     if in_place and layout == "readonly":
@@ -593,12 +593,12 @@ def subchecks(tier, seed):
             replay=lambda c: _pre_replay(c, seed)),
         core.SubCheck(
             "dither_algebra", dith_pts, lambda p: _dither_point(p, seed),
-            "Dither over numpy seed x dtype (points) x N 0..6 x coeff {0,.5,1,3,600} x in_place x "
+            "Dither over numpy seed x dtype (points) x N 0..6 x coeff {0,.5,1,3,600,2^-15,1e-7,1e-17} x in_place x "
             "layout: same seed => same result (also in_place vs not), noise on zeros = coeff * "
             "unit noise, coeff 0 identity, integers get trunc(x+noise), floats get x+noise up to the "
             "rounding of the sum/cast, input untouched unless in_place; non-trivial = N >= 1 and coeff != 0",
             axes=dict(numpy_seed=[0, nseeds - 1], dtype=DTYPES, N=list(range(7)),
-                      coeff=[0.0, 0.5, 1.0, 3.0, 600.0], in_place=[False, True], layout=LAYOUTS),
+                      coeff=[0.0, 0.5, 1.0, 3.0, 600.0, 1.0 / 32768, 1e-7, 1e-17], in_place=[False, True], layout=LAYOUTS),
             replay=lambda c: _dither_replay(c, seed)),
         core.SubCheck(
             "dither_independence", indep, lambda p: _indep_point(p, seed),
